@@ -6,7 +6,9 @@
 (* both subsets of {rest, email}) the client creates the object with tags  *)
 (* (user.go:72 / init_topic.go:573), replaces the tags with {set tags}     *)
 (* (Topic.replySetTags) and the server adds validated-credential tags      *)
-(* (user.go:381,458 -> store.Users.UpdateTags): any sequence of these.     *)
+(* (user.go:381,458 -> store.Users.UpdateTags) and removes them again on   *)
+(* {del what=cred} (Topic.replyDelCred -> deleteCred): any sequence.       *)
+(* The store's list and the live topic's cached t.tags are two variables.  *)
 (* Searches (the fnd branch of Topic.replyGetSub) do not change the state: *)
 (* their outcome is checked in every reachable state for every query.      *)
 (***************************************************************************)
@@ -41,52 +43,80 @@ Queries == { T_ab, T_rx,
              <<101, 109, 97, 105, 108, 58, 97, 64, 99, 46, 100, 44, 114, 101, 115, 116, 58, 120>>,  \* email:a@c.d,rest:x
              <<34, 97>>, <<>> }                                    \* "a  (malformed), empty
 
-VARIABLES imm, msk, stored, act
-vars == <<imm, msk, stored, act>>
+\* stored = the tag list in the store (users.tags / topics.tags); cache = the live topic's t.tags, loaded from the
+\* store when the topic is initialised (init_topic.go:154,647) and kept by the handlers; creds = the validated
+\* credentials of the account, named by the tag they generate.
+VARIABLES imm, msk, stored, cache, creds, act
+vars == <<imm, msk, stored, cache, creds, act>>
 
 Init == /\ imm \in SUBSET NSs
         /\ msk \in SUBSET NSs
-        /\ stored = <<>>
-        /\ act = [kind |-> "init", code |-> "ok"]
+        /\ stored = <<>> /\ cache = <<>> /\ creds = {}
+        /\ act = [kind |-> "init", code |-> "ok", readd |-> FALSE]
 
 \* user.go:72-81 / init_topic.go:573-577: tags given at creation time
 Create(raw) ==
   /\ act.kind = "init"
   /\ LET n == NormalizeTags(raw, MaxCount) IN
        IF ~n.nil /\ ~RestrictedEqual(n.tags, <<>>, imm)
-       THEN /\ stored' = stored
-            /\ act' = [kind |-> "create", code |-> "denied"]
-       ELSE /\ stored' = n.tags
-            /\ act' = [kind |-> "create", code |-> "ok"]
-  /\ UNCHANGED <<imm, msk>>
+       THEN /\ UNCHANGED <<stored, cache>>
+            /\ act' = [kind |-> "create", code |-> "denied", readd |-> FALSE]
+       ELSE /\ stored' = n.tags /\ cache' = n.tags
+            /\ act' = [kind |-> "create", code |-> "ok", readd |-> FALSE]
+  /\ UNCHANGED <<imm, msk, creds>>
 
+\* {set tags}: replySetTags gates the request against the topic's CACHE and overwrites the stored list
 Set(raw) ==
   /\ act.kind # "init"
-  /\ LET r == SetTags(stored, raw, imm, MaxCount) IN
-       /\ stored' = r.tags
-       /\ act' = [kind |-> "set", code |-> r.code]
-  /\ UNCHANGED <<imm, msk>>
+  /\ LET r == SetTags(cache, raw, imm, MaxCount)
+         n == NormalizeTags(raw, MaxCount) IN
+       /\ cache' = r.tags
+       /\ stored' = IF r.stored THEN r.tags ELSE stored
+       \* the request asks for a reserved tag the store does not hold (e.g. the tag of a deleted credential)
+       /\ act' = [kind |-> "set", code |-> r.code,
+                  readd |-> \E t \in ToSet(n.tags) \ ToSet(stored) : \E ns \in imm : InNS(t, ns)]
+  /\ UNCHANGED <<imm, msk, creds>>
 
-\* the server itself adds the tag of a validated credential (the adapter keeps the list a set)
+\* {set cred} with a valid response: the server adds the credential's tag (user.go:381,458 -> UpdateTags) and
+\* replySetCred refreshes the cache with the returned list (topic.go:2951)
 ServerAdd(t) ==
   /\ act.kind # "init"
-  /\ t \notin ToSet(stored) /\ Len(stored) < MaxCount
+  /\ t \notin creds /\ t \notin ToSet(stored) /\ Len(stored) < MaxCount
   /\ stored' = SortStrs(Append(stored, t))
-  /\ act' = [kind |-> "server", code |-> "ok"]
+  /\ cache' = stored'
+  /\ creds' = creds \cup {t}
+  /\ act' = [kind |-> "server", code |-> "ok", readd |-> FALSE]
+  /\ UNCHANGED <<imm, msk>>
+
+\* {del what=cred}: the validators index their credentials (add_to_tags) in this machine
+DelCred(t) ==
+  /\ act.kind # "init"
+  /\ LET r == DelCredTags(stored, cache, t, t \in creds, TRUE) IN
+       /\ stored' = r.stored
+       /\ cache' = r.cache
+       /\ act' = [kind |-> "delcred", code |-> r.code, readd |-> FALSE]
+  /\ creds' = creds \ {t}
   /\ UNCHANGED <<imm, msk>>
 
 Next == \/ \E raw \in Raws : Create(raw) \/ Set(raw)
-        \/ \E t \in ServerTags : ServerAdd(t)
+        \/ \E t \in ServerTags : ServerAdd(t) \/ DelCred(t)
 Spec == Init /\ [][Next]_vars
 
 \* ------------------------------------------------------------------ the property on the model
 StoredTagsNormalised == TagsNormal(stored, MaxCount)
 
+\* no client request (creation, {set tags}) adds or removes a reserved-namespace tag of the STORE
 ImmutableNsUntouchable ==
   [][act'.kind \in {"create", "set"} => \A ns \in imm : NsTags(ToSet(stored'), ns) = NsTags(ToSet(stored), ns)]_vars
 
 RejectedChangesNothing ==
-  [][act'.kind \in {"create", "set"} /\ act'.code # "ok" => stored' = stored]_vars
+  [][act'.kind \in {"create", "set"} /\ act'.code # "ok" => stored' = stored /\ cache' = cache]_vars
+
+\* after every step the live topic's cache holds exactly the stored tags
+CacheEqualsStored == ToSet(cache) = ToSet(stored)
+
+\* credential -> {del cred} -> {set tags [the old reserved tag + anything]} is refused
+ReaddRefused == act.kind = "set" /\ act.readd => act.code = "denied"
 
 Terms(r) == ToSet(Flatten(r.req)) \cup ToSet(r.opt)
 Searches == {[q |-> q, root |-> root, r |-> FndQuery(stored, q, AllOn, msk, root)] : q \in Queries, root \in BOOLEAN}
@@ -107,4 +137,7 @@ NeverDeniedSearch == \A s \in Searches : s.r.out # "denied"
 NeverMaskedSearchAllowed == \A s \in Searches : ~(s.r.out = "store" /\ \E t \in Terms(s.r) : \E ns \in msk : InNS(t, ns))
 NeverSetDenied == ~(act.kind = "set" /\ act.code = "denied")
 NeverSetOkWithImmutable == ~(act.kind = "set" /\ act.code = "ok" /\ \E ns \in imm : NsTags(ToSet(stored), ns) # {})
+NeverDelCredRemovesTag == ~(act.kind = "delcred" /\ act.code = "ok")
+NeverDelCredOfLastTag == ~(act.kind = "delcred" /\ stored = <<>> /\ act.code # "noaction")
+NeverReaddAttempt == ~(act.kind = "set" /\ act.readd /\ creds = {})
 =============================================================================
